@@ -7,6 +7,7 @@ import (
 	"math"
 	"reflect"
 	"sort"
+	"strings"
 
 	"gopkg.in/typ.v4/avl"
 	"verif/lib/fp"
@@ -621,4 +622,65 @@ func Churn(n, vals int, dups, balance bool, trace func(any)) (fail string, repla
 		return m, map[string]any{"family": "churn", "step": n}
 	}
 	return "", nil
+}
+
+// GoTest renders a failing operation path as a plain Go test against the public API (no
+// explorer): the calls, then the observations the sorted-multiset model expects.
+func GoTest(p Params, str bool) func(path []seqmc.Op) string {
+	return func(path []seqmc.Op) string {
+		var sb strings.Builder
+		sb.WriteString("package avl_test\n\nimport (\n\t\"reflect\"\n\t\"testing\"\n\n\t\"gopkg.in/typ.v4/avl\"\n)\n\n")
+		sb.WriteString("func TestReplay(t *testing.T) {\n")
+		val := func(v int) string { return fmt.Sprint(v) }
+		if str {
+			sb.WriteString("\ttype K struct{ A int }\n\ttr := avl.New(func(a, b K) int { return b.A - a.A }) // reversed order\n")
+			val = func(v int) string { return fmt.Sprintf("K{%d}", v) }
+		} else {
+			sb.WriteString("\ttr := avl.NewOrdered[int]()\n")
+		}
+		var model []int
+		less := func(a, b int) bool {
+			if str {
+				return a > b
+			}
+			return a < b
+		}
+		for _, op := range path {
+			switch op.Name {
+			case "Add":
+				fmt.Fprintf(&sb, "\ttr.Add(%s)\n", val(op.A))
+				i := sort.Search(len(model), func(i int) bool { return less(op.A, model[i]) })
+				model = append(model, 0)
+				copy(model[i+1:], model[i:])
+				model[i] = op.A
+			case "Remove":
+				present := false
+				for i, m := range model {
+					if m == op.A {
+						model = append(model[:i:i], model[i+1:]...)
+						present = true
+						break
+					}
+				}
+				fmt.Fprintf(&sb, "\tif got := tr.Remove(%s); got != %v {\n\t\tt.Errorf(\"Remove(%s) = %%v, want %v\", got)\n\t}\n", val(op.A), present, val(op.A), present)
+			case "Clear":
+				sb.WriteString("\ttr.Clear()\n")
+				model = nil
+			case "Clone":
+				sb.WriteString("\ttr = tr.Clone()\n")
+			}
+		}
+		vals := make([]string, len(model))
+		for i, v := range model {
+			vals[i] = val(v)
+		}
+		typ := "int"
+		if str {
+			typ = "K"
+		}
+		fmt.Fprintf(&sb, "\tif tr.Len() != %d {\n\t\tt.Errorf(\"Len = %%d, want %d\", tr.Len())\n\t}\n", len(model), len(model))
+		fmt.Fprintf(&sb, "\twant := []%s{%s}\n\tif got := tr.SliceInOrder(); len(got) != len(want) || (len(want) > 0 && !reflect.DeepEqual(got, want)) {\n\t\tt.Errorf(\"SliceInOrder = %%v, want %%v\", got, want)\n\t}\n", typ, strings.Join(vals, ", "))
+		sb.WriteString("\tt.Logf(\"pre-order %v post-order %v\", tr.SlicePreOrder(), tr.SlicePostOrder())\n}\n")
+		return sb.String()
+	}
 }
